@@ -657,8 +657,11 @@ class Topology(ABC):
             n.validate_constraints()
 
         check_num_instances = set()
+        # every network service of the topology: names are unique among the services of the topology itself and
+        # within a node or component only, the name-keyed network_services view shows one service per name
+        all_services = [self._get_ns_by_id(nid) for nid in self.graph_model.get_all_network_service_nodes()]
         # check network services, interfaces, sites
-        for s in self.network_services.values():
+        for s in all_services:
             # check if the service type is one that requires num_instance per site validation
             if NetworkServiceSliver.ServiceConstraints[s.type].num_instances != NetworkServiceSliver.NO_LIMIT:
                 # add this type into validation set for later
@@ -685,7 +688,7 @@ class Topology(ABC):
         for nstype in check_num_instances:
             # get services of this type in the model
             services_of_type = set()
-            for s in self.network_services.values():
+            for s in all_services:
                 if s.type == nstype:
                     services_of_type.add(s)
             # number of services of this type per site
